@@ -34,7 +34,7 @@ non-trivial = join accepted. random: structured URIs (1-4 host labels, port, mix
 0-8 segments, trailing slash), optionally damaged (forbidden/control/non-ASCII byte, empty or dot segment, truncation, \
 scheme typo), with two URIs derived by relations (case variants, ancestor, descendant, sibling, other host/module, \
 trailing slash) and a join argument; all of the above oracles on every string, ordered pair and triple; non-trivial = \
-at least two accepted URIs with common authority+module (rsync) / authority (https), or an accepted join. Derived values: clones, unshare()d copies, the result of the path_into_dir setter (one slash appended unless the path is empty or ends in one, idempotent, equal up to one trailing slash to its origin, joinable) and deserialised URIs (same verdict as the parsers, same value; from a string, a JSON value) obey the same laws; the values parent() and join() return are put through the pair laws with their origin as returned (they may share memory with it), grandparent included.";
+at least two accepted URIs with common authority+module (rsync) / authority (https), or an accepted join. Derived values: clones, unshare()d copies, the result of the path_into_dir setter (one slash appended unless the path is empty or ends in one, idempotent, equal up to one trailing slash to its origin, joinable) and deserialised URIs (same verdict as the parsers, same value; from a string, a JSON value) obey the same laws; the values parent() and join() return are put through the pair laws with their origin as returned (they may share memory with it), grandparent included. octets: every octet value 0..255 at every kind of position (authority / module / path segment start, inside, end; end of URI; own segment) of four URIs, and inside join arguments (complete). random includes hosts of 64..380 octets (acceptance demanded up to 253) and path segments of 100..300 octets; percent-encoded dot segments are don't-care for acceptance.";
 
 //------------ byte strings as JSON ---------------------------------------------
 
